@@ -36,7 +36,6 @@ pub uninterp spec fn try_inverse_s(m: Matrix6) -> Option<Matrix6>;
 pub uninterp spec fn pinv_s(m: Matrix6, eps: f64) -> Option<Matrix6>;
 pub uninterp spec fn svd_of(s: SVD) -> Matrix6;
 pub uninterp spec fn quat_mul_s(a: UnitQuaternion, b: UnitQuaternion) -> UnitQuaternion;
-pub uninterp spec fn quat_inv_s(a: UnitQuaternion) -> UnitQuaternion;
 pub uninterp spec fn scaled_axis_c(a: UnitQuaternion, i: int) -> f64;
 /// rotation vector (axis * angle) of a unit quaternion
 pub open spec fn scaled_axis_s(a: UnitQuaternion) -> Vector3 { Vector3 { x: scaled_axis_c(a, 0), y: scaled_axis_c(a, 1), z: scaled_axis_c(a, 2) } }
@@ -122,8 +121,6 @@ impl Vector3 {
 pub uninterp spec fn quat_angle_s(a: UnitQuaternion) -> f64;
 pub uninterp spec fn slerp_s(a: UnitQuaternion, b: UnitQuaternion, t: f64) -> UnitQuaternion;
 impl UnitQuaternion {
-    #[verifier::external_body]
-    pub fn inverse(&self) -> (r: UnitQuaternion) ensures r == quat_inv_s(*self) { unimplemented!() }
     #[verifier::external_body]
     pub fn angle(&self) -> (r: f64) ensures r == quat_angle_s(*self) { unimplemented!() }
     #[verifier::external_body]
